@@ -2,7 +2,8 @@
 EXTENDS Aave
 
 CONSTANTS Level,      \* 1 = quick universe, 2 = thorough
-          MaxSteps    \* depth bound
+          MaxSteps,   \* depth bound
+          Focus       \* 0 = whole operation alphabet, 1 = liquidation-centred alphabet (bars, update, a few operations)
 
 VARIABLES st, last, view, scn
 vars == <<st, last, view, scn>>
@@ -47,7 +48,17 @@ RepayAmts(t) == CASE t = "WETH" -> {D(1, 4), AllAmt}
                   [] t = "DAI"  -> {AllAmt}
                   [] t = "XTK"  -> {AllAmt}
 
-Events(s) ==
+FocusEvents(s) ==
+       {[op |-> "update"]}
+  \cup {[op |-> "nextbar", row |-> r] : r \in (s.row + 1) .. Len(RowsDef)}
+  \cup {[op |-> "supply", t |-> "WETH", a |-> D(1, 2), c |-> TRUE], [op |-> "supply", t |-> "USDT", a |-> D(1000, 1), c |-> TRUE],
+        [op |-> "borrow", t |-> "USDT", a |-> D(400, 1)], [op |-> "borrow", t |-> "WETH", a |-> D(1, 2)],
+        [op |-> "borrow", t |-> "USDT", a |-> AllAmt],
+        [op |-> "repay", t |-> "USDT", a |-> D(300, 1), with |-> "cash"], [op |-> "setcoll", t |-> "USDT", c |-> FALSE],
+        [op |-> "withdraw", t |-> "WETH", a |-> D(1, 2)]}
+  \cup (IF Level > 1 THEN {[op |-> "supply", t |-> "DAI", a |-> D(800, 1), c |-> TRUE], [op |-> "borrow", t |-> "DAI", a |-> D(600, 1)]} ELSE {})
+
+AllEvents(s) ==
        UNION {{[op |-> "supply", t |-> t, a |-> a, c |-> c] : a \in SupplyAmts(t), c \in BOOLEAN} : t \in TokensDef}
   \cup UNION {{[op |-> "withdraw", t |-> t, a |-> a] : a \in WithdrawAmts(t)} : t \in TokensDef}
   \cup UNION {{[op |-> "borrow", t |-> t, a |-> a] : a \in BorrowAmts(t)} : t \in TokensDef}
@@ -72,6 +83,8 @@ Scenarios ==
 
 RECURSIVE Apply(_, _)
 Apply(s, evs) == IF evs = <<>> THEN s ELSE Apply(Step(s, Head(evs)).st, Tail(evs))
+
+Events(s) == IF Focus = 1 THEN FocusEvents(s) ELSE AllEvents(s)
 
 Init == /\ scn \in Scenarios
         /\ st = [Apply(InitSt(W0), scn) EXCEPT !.k = 0]
